@@ -22,7 +22,7 @@ def legacy_streams(rng, n):
             b = [rng.randint(0, 255) for _ in range(rng.randint(0, 6))]
             return [77] + i4(len(b)) + b  # PY2STRING (arbitrary bytes)
         if k == 1:
-            s = sc.rand_str(rng, 5).encode("utf-8")
+            s = sc.rand_str(rng, 5, allow_surrogate=False).encode("utf-8")
             return [83] + i4(len(s)) + list(s)  # UNICODE
         if k == 2:
             return [71] + i4(rng.choice([0, 1, -1, 2**31 - 1, -(2**31), rng.randint(-10**6, 10**6)]))  # LONG
@@ -30,7 +30,7 @@ def legacy_streams(rng, n):
             t = str(rng.choice([2**31, -(2**31) - 1, 10**25, -(10**25), rng.getrandbits(70)])).encode()
             return [73] + i4(len(t)) + list(t)  # LONGLONG
         if k == 4:
-            s = sc.rand_str(rng, 5).encode("utf-8")
+            s = sc.rand_str(rng, 5, allow_surrogate=False).encode("utf-8")
             return [78] + i4(len(s)) + list(s)  # PY3STRING
         if k == 5:
             b = [rng.randint(0, 255) for _ in range(rng.randint(0, 6))]
